@@ -157,3 +157,4 @@ void h_fossil_collect(void)
 	VCANARY("h_fossil_collect reachable");
 	VCOVER(m >= 2 && S.logs.count >= 2, "h_fossil_collect covers dropping several and keeping several");
 }
+
